@@ -1,10 +1,10 @@
-(* Obligation C10/sharp_inside_unbounded.  Statement as printed by Coq from Inferno.C10.KernelProofs; proof by reference.
+(* Obligation C10/sharp_inside_unbounded.  Statement as printed by Coq from Inferno.C10.KernelSharp; proof by reference.
    This file contains nothing else, so the statement cannot be weakened quietly. *)
 From Coq Require Import List ZArith Bool Arith Reals Lra Lia Permutation.
-From Inferno Require Import Base.Num Base.NumR Gen.Bounding C10.Updater C10.KernelProofs C10.AccProofs C10.OrderProofs C10.WorldProofs C10.UpdateProofs C10.InterleaveProofs.
+From Inferno Require Import Base.Num Base.NumR Gen.Bounding C10.Updater C10.KernelAlgebra C10.KernelSharp.
 Import ListNotations.
 Open Scope R_scope.
 Theorem sharp_inside_unbounded : forall (x : R) (p n : T RN) (mx mn : R),
   mn < x < mx -> bound_sharp RN x p n (Some mx) (Some mn) = p - n.
-Proof. exact (@Inferno.C10.KernelProofs.sharp_inside_unbounded). Qed.
+Proof. exact (@Inferno.C10.KernelSharp.sharp_inside_unbounded). Qed.
 Print Assumptions sharp_inside_unbounded.
